@@ -2609,7 +2609,13 @@ def make_builtins(E):
             if d:
                 return d[0]
             E.throw('StopIteration')
-        return E.call(E.getattr(g, '__next__'), [], {})
+        try:
+            return E.call(E.getattr(g, '__next__'), [], {})
+        except PyExc as e:
+            # next(it, default): exhaustion (StopIteration from __next__) yields the default; anything else propagates
+            if d and isinstance(e.value, SObj) and e.value.cls.name == 'StopIteration':
+                return d[0]
+            raise
     reg('next', _next)
     reg('object', lambda: SObj(ENG.OBJECT))
     b['object'] = ENG.OBJECT
